@@ -9,7 +9,7 @@ GEN = dict(scans=True, dumps=False)
 def run(tier, seed):
     res = C.Result("C03", tier, seed, level="proof")
     res.assumptions = ["single-threaded runs; the Spec (ordered map + interval filter) is extracted from coq/SpecDefs.v"]
-    return seq.run_seq_property(res, "c03", CATS, 40, 400, gen_kwargs=GEN)
+    return seq.run_seq_property(res, "c03", CATS, 40, 400, gen_kwargs=GEN, extra_scripts=seq.gen_split_boundary_scripts)
 
 
 def replay(path, tier, seed):
